@@ -54,7 +54,7 @@ Definition run_req (st : rstate) (c : ctx) (front back : Z) (first : list (list 
                      (if Z.eqb front 1 then [] else h2_framing end_stream (headers_of (v_items w))) in
         let jar := edit_cookies c (v_jar w) in
         let jar_nonempty := match v_jar w with [] => false | _ => true end in
-        let trailers := if Z.eqb front 1 then map (fun h => (fst h, ltrim (snd h))) (r_ts st) else trailers_h2 (r_ts st) in
+        let trailers := edit_trailers c (if Z.eqb front 1 then map (fun h => (fst h, ltrim (snd h))) (r_ts st) else trailers_h2 (r_ts st)) in
         let '(oh, ot) := if Z.eqb back 1 then (ser_h1 items jar_nonempty jar, trailers)
                          else (ser_h2 items jar, h2_filter trailers) in
         let hv := headers_of (v_items w) in
